@@ -29,6 +29,11 @@ def zbool_(x):
 CURRENT = {"ctx": None}
 
 
+def astype_kind_of(it, t):
+    from .models_np import astype_kind
+    return astype_kind(it, t)
+
+
 def to_v(it, x):
     ctx = it.ctx if it is not None and hasattr(it, "ctx") else it
     if ctx is None:
@@ -56,7 +61,29 @@ def to_v(it, x):
         return x.term
     if isinstance(x, Instance) and getattr(x, "href", None) is not None:
         return x.href
+    if isinstance(x, TypeObj):
+        return type_tag(ctx, x.name)
     raise Unsupported(f"cannot embed {x!r} into V")
+
+
+class_of = z3.Function("class_of", V, V)          # x.__class__ of an arbitrary value (uninterpreted)
+module_of = z3.Function("module_of", V, V)        # t.__module__ of a class (uninterpreted)
+_type_tag = z3.Function("type_tag", INT, V)
+_type_tag_id = z3.Function("type_tag_id", V, INT)
+_TAG_IDS = {}
+
+
+def type_tag(ctx, name):
+    """V value of a builtin / library class: distinct names are distinct classes; a class is not None."""
+    if "_type_tag_ax" not in ctx.__dict__:
+        ctx.__dict__["_type_tag_ax"] = True
+        n = z3.Int("n!tt")
+        ctx.axioms.append(z3.ForAll([n], z3.And(_type_tag_id(_type_tag(n)) == n, _type_tag(n) != NONE, _type_tag(n) != ABSENT),
+                                    patterns=[_type_tag(n)]))
+    if name not in _TAG_IDS:
+        import hashlib
+        _TAG_IDS[name] = int(hashlib.sha1(name.encode()).hexdigest()[:12], 16)
+    return _type_tag(z3.IntVal(_TAG_IDS[name]))
 
 
 _tuple_fns = {}
@@ -169,7 +196,8 @@ def truth(it, x):
     if isinstance(x, (Closure, BoundMethod, ModelFn, ClassObj, TypeObj)):
         return True
     if isinstance(x, MSet):
-        raise Unsupported("truth of symbolic set")
+        e = z3.Const("e!truth", V)
+        return z3.Exists([e], x.set.mem(e))
     raise Unsupported(f"truth of {x!r}")
 
 
@@ -493,6 +521,8 @@ def iter_of(it, x):
         return "concrete", list(x)
     if isinstance(x, MList):
         return iter_of(it, x.seq)
+    if isinstance(x, MSet):
+        return "seq", set_enumeration(it, x.set)
     if isinstance(x, PyList):
         return "concrete", list(x.items)
     if isinstance(x, Seq):
@@ -569,6 +599,28 @@ def make_set_from_seq(it, s):
     return ms
 
 
+def set_enumeration(it, sset):
+    """Iteration order of a (finite) set: some duplicate-free sequence of exactly its members (order unknown)."""
+    if getattr(sset, "_enum_seq", None) is not None:
+        return sset._enum_seq
+    ctx = it.ctx
+    n = ctx.fresh("setlen", INT)
+    at = ctx.fresh_fn("setelem", INT, V)
+    pos = ctx.fresh_fn("setpos", V, INT)
+    j, x = z3.Int("j!se"), z3.Const("x!se", V)
+    ctx.axioms.append(n >= 0)
+    ctx.axioms.append(z3.ForAll([j], z3.Implies(in_range(j, n), z3.And(zbool(sset.mem(at(j))), pos(at(j)) == j)), patterns=[at(j)]))
+    ctx.axioms.append(z3.ForAll([x], z3.Implies(zbool(sset.mem(x)), z3.And(in_range(pos(x), n), at(pos(x)) == x)), patterns=[pos(x)]))
+    mx = sset.mem(x)
+    if z3.is_app(mx) and mx.decl().kind() == z3.Z3_OP_UNINTERPRETED:
+        ctx.axioms.append(z3.ForAll([x], z3.Implies(mx, z3.And(in_range(pos(x), n), at(pos(x)) == x)), patterns=[mx]))
+    s = Seq(n, lambda i: at(i), V, note="set iteration order")
+    s.keep_symbolic = True
+    sset._enum_seq = s
+    ctx.used_models.add("iteration over a set: some duplicate-free enumeration of exactly its members (sets are finite)")
+    return s
+
+
 def unpack(it, v, n):
     if isinstance(v, (tuple, list)):
         if len(v) != n:
@@ -620,6 +672,8 @@ def py_len(it, x):
         it.ctx.assume(z3.And(n >= 0, n <= zint(x.src_seq.len)))
         it.ctx.used_models.add("len(set(seq)): the number of distinct elements (uninterpreted) - assumed")
         return n
+    if isinstance(x, MSet):
+        return set_enumeration(it, x.set).len
     if isinstance(x, GenValue):
         raise PyRaise("TypeError", "len of generator")
     if hasattr(x, "pyvc_len"):
@@ -689,8 +743,17 @@ def getitem(it, obj, idx):
             except IndexError:
                 raise PyRaise("IndexError", "tuple index")
         n = len(obj)
+        if is_sym_bool(i):
+            i = z3.If(i, 1, 0)
         i = norm_index(it, i, n)
-        return merge_many([(zint(i) == j, x) for j, x in enumerate(obj)])
+        try:
+            return merge_many([(zint(i) == j, x) for j, x in enumerate(obj)])
+        except Unsupported:
+            # elements that cannot be merged into one value (functions, ...): one path per position
+            for j, x in enumerate(obj):
+                if it.ctx.branch(zint(i) == j):
+                    return x
+            raise PathAbort()
     if isinstance(obj, dict):
         if is_z3(idx):
             raise Unsupported("symbolic key into concrete dict")
@@ -826,6 +889,10 @@ def value_getattr(it, obj, name):
     table = None
     if is_v(obj) and name == "item" and getattr(it, "np_scalars", False):
         raise PyRaise("AttributeError", "'str' object has no attribute 'item'")      # a plain Python object, not a NumPy scalar
+    if is_v(obj) and name == "__class__":
+        return class_of(obj)
+    if is_v(obj) and name == "__module__":
+        return module_of(obj)
     if is_v(obj) or isinstance(obj, (SMap, dict)):
         table = DICT_METHODS
         if is_v(obj) and name not in table:
@@ -1244,7 +1311,28 @@ def _s_copy(it, args, kwargs):
     return MSet(it.ctx, args[0].set)
 
 
-SET_METHODS = {"add": ModelFn("set.add", _s_add), "copy": ModelFn("set.copy", _s_copy)}
+def _s_discard(it, args, kwargs):
+    st, x = args
+    old = st.set.mem
+    xv = to_v(it, x)
+    st.set = SSet(lambda y, old=old, xv=xv: z3.And(zbool(old(y)), y != xv))
+    return None
+
+
+def _s_pop(it, args, kwargs):
+    """set.pop(): removes and returns an arbitrary member (the first of the unknown iteration order)"""
+    st = args[0]
+    en = set_enumeration(it, st.set)
+    if not it.ctx.branch(zint(en.len) > 0):
+        raise PyRaise("KeyError", "pop from an empty set")
+    x = en.at(0)
+    old = st.set.mem
+    st.set = SSet(lambda y, old=old, x=x: z3.And(zbool(old(y)), y != x))
+    return x
+
+
+SET_METHODS = {"add": ModelFn("set.add", _s_add), "copy": ModelFn("set.copy", _s_copy),
+               "discard": ModelFn("set.discard", _s_discard), "pop": ModelFn("set.pop", _s_pop)}
 
 
 # ---------------------------------------------------------------------------------------
@@ -1371,6 +1459,47 @@ def _unknown_isinstance(it, x, name):
         # a dict instance is never an instance of these (incompatible layouts / distinct builtins)
         return z3.And(z3.Not(is_dict(x)), x != NONE, f(x))
     return f(x)
+
+
+# classes the models know by name; (sub, super) pairs of the ones related by inheritance (assumed: CPython / NumPy class
+# hierarchy).  Used only for issubclass / np.issubdtype on a *symbolic* class value.
+KNOWN_CLASSES = ("bool", "int", "float", "str", "bytes", "object", "date", "datetime", "timedelta", "str_", "bool_", "bytes_",
+                 "float64", "int64", "datetime64", "timedelta64", "object_")
+SUBCLASS = {("bool", "int"), ("str_", "str"), ("float64", "float"), ("datetime", "date"), ("bytes_", "bytes")}
+# np.issubdtype(cls, np.floating / np.integer) for a class (assumed: NumPy scalar-type hierarchy; a Python class that is not
+# a NumPy scalar type is first mapped by np.dtype: float -> float64, int -> int64, bool -> bool_, everything else object)
+SUBDTYPE = {"floating": ("float", "float64"), "integer": ("int", "int64", "timedelta64")}
+
+
+def _class_pred(ctx, fname, members):
+    f = z3.Function(fname, V, BOOL)
+    done = ctx.__dict__.setdefault("_class_pred_ax", set())
+    if fname not in done:
+        done.add(fname)
+        for n in KNOWN_CLASSES:
+            fact = f(type_tag(ctx, n))
+            ctx.axioms.append(fact if n in members else z3.Not(fact))
+    return f
+
+
+def _issubclass(it, args, kwargs):
+    x, t = args
+    if isinstance(t, tuple):
+        r = False
+        for tt in t:
+            r = or_(it, r, _issubclass(it, [x, tt], {}))
+        return r
+    if not isinstance(t, TypeObj):
+        raise Unsupported(f"issubclass(.., {t!r})")
+    members = {t.name} | {a for a, b in SUBCLASS if b == t.name}
+    if isinstance(x, TypeObj):
+        return x.name in members or t.name == "object"
+    if is_v(x):
+        if t.name == "object":
+            return True
+        it.ctx.used_models.add("issubclass on a symbolic class: known builtin / NumPy classes by table, others uninterpreted")
+        return _class_pred(it.ctx, "issubclass_" + t.name, members)(x)
+    raise Unsupported(f"issubclass({x!r}, ..)")
 
 
 def _callable(it, args, kwargs):
@@ -1737,7 +1866,7 @@ def _get_dict_type():
 
 def make_builtins(it):
     b = {
-        "isinstance": ModelFn("isinstance", _isinstance), "callable": ModelFn("callable", _callable),
+        "isinstance": ModelFn("isinstance", _isinstance), "issubclass": ModelFn("issubclass", _issubclass), "callable": ModelFn("callable", _callable),
         "len": ModelFn("len", _len), "min": ModelFn("min", _min), "max": ModelFn("max", _max),
         "range": ModelFn("range", _range), "reversed": ModelFn("reversed", _reversed),
         "enumerate": ModelFn("enumerate", _enumerate), "zip": ModelFn("zip", _zip), "map": ModelFn("map", _map),
@@ -1748,7 +1877,7 @@ def make_builtins(it):
         "classmethod": ModelFn("classmethod", _classmethod), "staticmethod": ModelFn("staticmethod", _staticmethod),
         "type": ModelFn("type", _type), "dir": ModelFn("dir", _dir), "hash": ModelFn("hash", _hash), "next": ModelFn("next", _next), "iter": ModelFn("iter", _iter),
         "sorted": ModelFn("sorted", _sorted),
-        "bytes": TypeObj("bytes"), "int": TypeObj("int"), "str": TypeObj("str"), "bool": TypeObj("bool"), "float": TypeObj("float"),
+        "bytes": TypeObj("bytes"), "int": TypeObj("int"), "str": TypeObj("str", ctor=_str_ctor), "bool": TypeObj("bool"), "float": TypeObj("float"),
         "object": TypeObj("object", methods=dict(OBJECT_METHODS)),
         "True": True, "False": False, "None": None,
         "TypeError": TypeObj("TypeError"), "ValueError": TypeObj("ValueError"),
@@ -1757,6 +1886,18 @@ def make_builtins(it):
         "NotImplementedError": TypeObj("NotImplementedError"), "LookupError": TypeObj("LookupError"),
     }
     return b
+
+
+def _str_ctor(it, args, kwargs):
+    """str(x): concrete for concrete Python values, else an uninterpreted function of the value (equal values have
+    equal strings; nothing else is known)."""
+    if not args:
+        return ""
+    x = args[0]
+    if isinstance(x, (str, int, bool)) or x is None:
+        return str(x)
+    f = z3.Function("str_of", V, V)
+    return f(to_v(it, x))
 
 
 # ---------------------------------------------------------------------------------------
